@@ -2,7 +2,8 @@
 (* scenario enumeration: every subset of a marker palette x content classes of package.json / Makefile *)
 EXTENDS Context, Json, CSV, IOUtils
 VARIABLE sc
-Palette == {".git", "Dockerfile", "package.json", "go.mod", "requirements.txt", "Makefile", "main.tf", "CMakeLists.txt", "zzq-notes.xyz", "README.zzq"}
+Palette == {".git", "Dockerfile", "docker-compose.yml", "package.json", "yarn.lock", "go.mod", "requirements.txt", "Makefile", "main.tf", "vars.tfvars",
+            "CMakeLists.txt", "zzq-notes.xyz", "README.zzq"}
 Init == sc \in [files : SUBSET Palette, pkg : {"valid", "malformed", "odd", "huge"}, mk : {"valid", "odd", "binary"}]
 Next == UNCHANGED sc
 Spec == Init /\ [][Next]_sc
